@@ -112,8 +112,8 @@ ReadyF(t) == \A d \in AllDeps(t) : d.p # 0 /\ ts[d.p].sched
 \* forward: earliest instant; a container's start is a lower bound (D8), the task's own start a pin
 \* `gaplength`: a gap in WORKING time of the project calendar (default hours, project time, minus global vacations and
 \* holidays), counted in whole slots from the slot that contains the predecessor's date; the bound is the start of the slot
-\* after the last counted one, or the end of the horizon.  The count is the number of whole HOURS written, whatever the
-\* slot length (D24, spec follows code); `gapduration` on the same edge takes precedence.
+\* after the last counted one, or the end of the horizon.  The count is the number of slots that cover the length written
+\* (`gaplength 2h` with 30-minute slots: four working slots; D24); `gapduration` on the same edge takes precedence.
 ProjWork(s) == DefaultAt(s * G) /\ ~InAny(P.vac, s * G) /\ ~InAny(P.gleaves, s * G)
 GapLenBound(x, k) == LET s0 == x \div G IN
    IF k <= 0 THEN s0 * G
@@ -224,7 +224,7 @@ DateOk(dateSec, ticks, r) == 2 * Abs(dateSec * R(r).effN - ticks) <= R(r).effN  
 MaxGapSucc(t) == \E u \in Succs(t) : \E d \in AllDeps(u) : d.p = t /\ d.maxgap
 \* a task whose placement follows the plain list-scheduling rule (no waiting on purpose)
 Plain(t) == ~HasFlag(t, "contiguous") /\ ~MaxGapSucc(t) /\ ~T(t).other
-            /\ \A d \in AllDeps(t) : ~d.gaplen /\ ~d.clone
+            /\ \A d \in AllDeps(t) : ~d.clone          \* (gap lengths are part of the reference rule since GapLenBound counts slots, D24)
 
 (* ------------------------------- property predicates (per touched key) -------------------------- *)
 \* C01: the portions booked in one slot of one resource fit side by side inside the slot
